@@ -1,5 +1,6 @@
 import GasolVerif.Concrete
 import GasolVerif.Show
+import GasolVerif.Models.FormulaIO
 open GasolVerif
 
 def parseWords? (s : String) : Option (List Word) :=
@@ -30,6 +31,8 @@ def handle (line : String) : String :=
         | some S => S.toStr norm3
         | none => "ext:" ++ " ".intercalate (sg.map Instr.toToken))
     | none => "error:parse"
+  | ["FORMULA", raw, built, text] => Formula.handleFormula raw built text
+  | ["PYEQ", f, g, py] => Formula.handlePyEq f g py
   | _ => "error:unknown-request"
 
 partial def loop (h : IO.FS.Stream) (out : IO.FS.Stream) : IO Unit := do
